@@ -42,7 +42,9 @@ def main():
         sh(f"git -C /repo worktree remove --force {wt}")
         r = sh(f"git -C /repo worktree add -q --detach {wt} HEAD")
         r = sh(f"git -C {wt} apply {m['patch']}")
-        entry = {"kind": m["kind"], "checks": {}, "applies": r.returncode == 0}
+        entry = results.get(m["name"], {"kind": m["kind"], "checks": {}})
+        entry["applies"] = r.returncode == 0
+        entry.setdefault("checks", {})
         if r.returncode != 0:
             entry["error"] = r.stdout[-500:]
         else:
@@ -52,9 +54,10 @@ def main():
                 rr = subprocess.run([os.path.join(VERIF, "check"), c, "--tier", tier], cwd=VERIF, env=env, text=True, stdout=subprocess.PIPE, stderr=subprocess.PIPE)
                 viol = [l for l in rr.stdout.splitlines() if l.startswith("VIOLATION")]
                 clauses = sorted(set(l.split(":")[0].strip()[3:] for l in rr.stderr.splitlines() if l.startswith("  -> ")))
-                entry["checks"][c] = {"exit": rr.returncode, "violation_lines": len(viol), "clauses": clauses[:8], "wall_s": round(time.time() - t0, 1),
+                ckey = c if tier == "quick" else f"{c}@{tier}"
+                entry["checks"][ckey] = {"exit": rr.returncode, "violation_lines": len(viol), "clauses": clauses[:8], "wall_s": round(time.time() - t0, 1),
                                       "detected": rr.returncode == 1 and len(viol) > 0, "summary": rr.stdout.splitlines()[-1] if rr.stdout else ""}
-                print(m["name"], c, entry["checks"][c]["detected"], entry["checks"][c]["clauses"], entry["checks"][c]["wall_s"], flush=True)
+                print(m["name"], ckey, entry["checks"][ckey]["detected"], entry["checks"][ckey]["clauses"], entry["checks"][ckey]["wall_s"], flush=True)
         results[m["name"]] = entry
         sh(f"git -C /repo worktree remove --force {wt}")
         # remove the scratch build of the harness for that worktree
